@@ -250,11 +250,19 @@ type simConn struct {
 
 var tokRe = regexp.MustCompile(`<<S(\d{8}) L\d{8} C[0-9a-f]{8}>>`)
 var seqRe = regexp.MustCompile(`(?i)X-Sim-Seq: (\d+)`)
+var bodyHdrRe = regexp.MustCompile(`(?i)X-Sim-Body: (\d+)`)
 
 func scanSIDs(v []byte) []int {
 	seen := map[int]bool{}
 	var out []int
 	for _, m := range tokRe.FindAllSubmatch(v, -1) {
+		n, _ := strconv.Atoi(string(m[1]))
+		if !seen[n] {
+			seen[n] = true
+			out = append(out, n)
+		}
+	}
+	for _, m := range bodyHdrRe.FindAllSubmatch(v, -1) {
 		n, _ := strconv.Atoi(string(m[1]))
 		if !seen[n] {
 			seen[n] = true
